@@ -55,7 +55,7 @@ func c15Trivial() coraza.WAF {
 }
 
 func c15Options(s *c15Spec) plugintypes.OperatorOptions {
-	opts := plugintypes.OperatorOptions{Arguments: string(s.Arg)}
+	opts := plugintypes.OperatorOptions{Arguments: string(s.Arg), RxPreFilterEnabled: s.Prefilter}
 	if s.File != nil {
 		opts.Root = fstest.MapFS{string(s.Arg): &fstest.MapFile{Data: []byte(*s.File)}}
 		opts.Path = []string{"."}
@@ -172,13 +172,14 @@ func c15Shape(s *c15Spec, in string) string {
 	case "pm", "pmFromFile", "pmf", "pmFromDataset":
 		for _, p := range s.Phrases {
 			if c15HasHigh(string(p)) {
-				return "non-ascii-phrase"
+				return "non-ascii-phrase" + c15FileShape(s)
 			}
 		}
+		sh := "ascii"
 		if c15HasHigh(in) {
-			return "non-ascii-input"
+			sh = "non-ascii-input"
 		}
-		return "ascii"
+		return sh + c15FileShape(s)
 	case "ipMatch", "ipMatchFromFile", "ipMatchF", "ipMatchFromDataset":
 		fam := "v4"
 		if strings.Contains(in, ":") {
@@ -186,10 +187,10 @@ func c15Shape(s *c15Spec, in string) string {
 		}
 		for _, e := range s.Entries {
 			if !strings.Contains(e, "/") {
-				return fam + "-list-with-bare-address"
+				return fam + "-list-with-bare-address" + c15FileShape(s)
 			}
 		}
-		return fam
+		return fam + c15FileShape(s)
 	case "validateByteRange":
 		switch {
 		case strings.IndexByte(in, 0) >= 0:
@@ -205,12 +206,42 @@ func c15Shape(s *c15Spec, in string) string {
 			}
 			return "byte-pattern"
 		}
-		return "pattern"
+		return "pattern" + c15RxShape(s, in)
 	}
 	if s.TXX != nil {
 		return "macro"
 	}
 	return "literal"
+}
+
+// c15FileShape: the way a data file was written, when it is not the plain one-entry-per-LF-line form.
+func c15FileShape(s *c15Spec) string {
+	switch {
+	case s.File == nil || s.FileStyle == "":
+		return ""
+	case !strings.Contains(s.FileStyle, "pad=none"):
+		return ":file-with-padded-lines"
+	case !strings.Contains(s.FileStyle, "eol=lf"):
+		return ":file-with-crlf"
+	case strings.Contains(s.FileStyle, "final=none"):
+		return ":file-without-final-newline"
+	}
+	return ""
+}
+
+// c15RxShape: case-insensitive patterns, inputs outside ASCII and the prefilter setting get classes of their own.
+func c15RxShape(s *c15Spec, in string) string {
+	sh := ""
+	if strings.Contains(s.Pattern, "(?i") {
+		sh = ":case-insensitive"
+		if c15HasHigh(in) && !c15HasHigh(s.Pattern) {
+			sh += ":non-ascii-input"
+		}
+	}
+	if s.Prefilter {
+		sh += ":prefilter-on"
+	}
+	return sh
 }
 
 func c15Kind(want bool) string {
@@ -279,6 +310,9 @@ func c15JudgeCaptures(w *fw.W, prefix string, c *c15Case, want bool, caps map[in
 				if m == nil {
 					cls = prefix + "rx:capture:set-without-match"
 				}
+				if s.Prefilter {
+					cls += ":prefilter-on"
+				}
 				w.Violation(cls, "naive-definition", c, map[string]any{"submatches": c15Strs(m)}, caps, fmt.Sprintf("TX.%d: expected %q, observed %q", i, exp, caps[i]))
 				return
 			}
@@ -328,6 +362,9 @@ func c15JudgeDirect(w *fw.W, t *c15Tx, op plugintypes.Operator, s *c15Spec, in s
 		return c15Outcome{}
 	}
 	w.Eval(1)
+	if s.Op == "rx" && s.Binary == nil {
+		c15RxEvidence(w, op, s, in, want)
+	}
 	if o.Got != want {
 		w.Violation(s.Op+":"+c15Kind(want)+":"+c15Shape(s, in), "naive-definition", c, want, o, "")
 		return c15Outcome{judged: true, want: want, viol: true}
@@ -336,6 +373,33 @@ func c15JudgeDirect(w *fw.W, t *c15Tx, op plugintypes.Operator, s *c15Spec, in s
 		c15JudgeCaptures(w, "", c, want, o.Caps)
 	}
 	return c15Outcome{judged: true, want: want}
+}
+
+// c15RxEvidence counts (never decides) which regions of the @rx population an evaluation fell in:
+// the prefilter setting, the early stage of the matcher that decided it, and matches that exist
+// only because RE2's (?i) folds with Unicode simple folding (K = U+212A, s = U+017F, ...).
+func c15RxEvidence(w *fw.W, op plugintypes.Operator, s *c15Spec, in string, want bool) {
+	if s.Prefilter {
+		w.Count("rx_prefilter_on_evaluations", 1)
+		switch verifapi.RxStage(op, in) {
+		case verifapi.RxStageExact:
+			w.Count("rx_decided_by_exact_literal_path", 1)
+			if want {
+				w.Count("rx_exact_literal_path_matches", 1)
+			}
+		case verifapi.RxStagePrefilter, verifapi.RxStageMinLen:
+			w.Count("rx_rejected_before_the_regexp", 1)
+		}
+	} else {
+		w.Count("rx_prefilter_off_evaluations", 1)
+	}
+	if want && s.Literal != nil && strings.Contains(s.Pattern, "(?i") && !c15HasHigh(string(*s.Literal)) && c15HasHigh(in) &&
+		!c15Contains(c15FoldASCII(in), c15FoldASCII(string(*s.Literal))) {
+		w.Count("rx_matches_only_under_unicode_folding", 1)
+		if s.Prefilter {
+			w.Count("rx_matches_only_under_unicode_folding_prefilter_on", 1)
+		}
+	}
 }
 
 // ---------------------------------------------------------------------------------------------
@@ -352,10 +416,22 @@ func c15Render(w *fw.W, s *c15Spec, variant string, neg bool) (text, arg string,
 		}
 		arg = p
 	}
+	if s.Prefilter {
+		sb.WriteString("SecRxPreFilter On\n")
+	}
 	if s.Dataset != nil {
 		sb.WriteString("SecDataset " + arg + " `\n")
-		for _, d := range s.Dataset {
-			sb.WriteString(string(d) + "\n")
+		if s.DatasetText != nil {
+			// the entries as a configuration writes them: indented, with empty / comment lines, listed twice
+			sb.WriteString(string(*s.DatasetText))
+			if !strings.HasSuffix(string(*s.DatasetText), "\n") {
+				sb.WriteString("\n")
+			}
+			w.Count("e2e_dataset_blocks_with_styled_lines", 1)
+		} else {
+			for _, d := range s.Dataset {
+				sb.WriteString(string(d) + "\n")
+			}
 		}
 		sb.WriteString("`\n")
 	}
@@ -535,10 +611,22 @@ func c15Round(w *fw.W, sched string, serial int, nIn int) {
 	case "pm", "pmFromFile", "pmf", "pmFromDataset":
 		s = c15GenPm(r, sched, safe, serial)
 		atoms := c15Atoms
-		gen(func() string { return c15PmInput(r, s.Phrases, atoms) })
+		gen(func() string {
+			in, kind := c15PmInput(r, s.Phrases, atoms)
+			w.Cover("pm_input_kinds", kind)
+			switch kind {
+			case "shortest-phrase", "shortest-phrase-plus-one", "shortest-phrase-minus-one", "shortest-phrase-one-bit-off":
+				w.Count("pm_inputs_at_the_shortest_phrase_boundary", 1)
+			case "unicode-folded-phrase", "shortest-phrase-unicode-folded":
+				w.Count("pm_inputs_unicode_folded_phrase", 1)
+			}
+			return in
+		})
+		c15CountFileStyle(w, s)
 	case "ipMatch", "ipMatchFromFile", "ipMatchF", "ipMatchFromDataset":
 		s = c15GenIP(r, sched, serial)
 		gen(func() string { return c15IPInput(r, s.Entries) })
+		c15CountFileStyle(w, s)
 	case "validateByteRange":
 		s = c15GenByteRange(r)
 		gen(func() string { return c15ByteRangeInput(r, s) })
@@ -583,6 +671,12 @@ func c15Round(w *fw.W, sched string, serial int, nIn int) {
 	w.Count("instances", 1)
 	seenT, seenF := false, false
 	var judgedIn []string
+	padded, shortest := s.File != nil && len(s.Phrases) > 0 && !strings.Contains(s.FileStyle, "pad=none"), 0
+	for i, p := range s.Phrases {
+		if i == 0 || len(p) < shortest {
+			shortest = len(p)
+		}
+	}
 	for i, in := range inputs {
 		if i > 0 && i%4 == 0 { // a fresh transaction now and then
 			t.close()
@@ -592,6 +686,10 @@ func c15Round(w *fw.W, sched string, serial int, nIn int) {
 		}
 		oc := c15JudgeDirect(w, t, op, s, in)
 		if oc.judged && !oc.viol {
+			if oc.want && padded && len(in) == shortest {
+				// the whole input is a shortest phrase, and its line in the file is longer than the phrase
+				w.Count("pm_padded_file_matches_as_short_as_the_shortest_phrase", 1)
+			}
 			judgedIn = append(judgedIn, in)
 			if oc.want {
 				seenT = true
@@ -626,12 +724,35 @@ func c15Round(w *fw.W, sched string, serial int, nIn int) {
 	}
 }
 
+func c15CountFileStyle(w *fw.W, s *c15Spec) {
+	if s.File == nil {
+		return
+	}
+	w.Cover("file_styles", s.FileStyle)
+	if !strings.Contains(s.FileStyle, "pad=none") {
+		w.Count("files_with_padded_lines", 1)
+	}
+	if strings.Contains(s.FileStyle, "pad=all") {
+		w.Count("files_with_every_line_padded", 1)
+	}
+	if !strings.Contains(s.FileStyle, "eol=lf") {
+		w.Count("files_with_crlf", 1)
+	}
+	if strings.Contains(s.FileStyle, "final=none") {
+		w.Count("files_without_final_newline", 1)
+	}
+}
+
 func c15Required() []string {
 	var out []string
 	for _, op := range c15Judged {
 		out = append(out, "op."+op+".true", "op."+op+".false", "op."+op+".e2e")
 	}
-	return append(out, "capture_checks", "captures_seen", "negation_pairs", "negated_deny_rules", "instances_with_both_outcomes")
+	return append(out, "capture_checks", "captures_seen", "negation_pairs", "negated_deny_rules", "instances_with_both_outcomes",
+		"files_with_padded_lines", "files_with_every_line_padded", "files_with_crlf", "files_without_final_newline", "e2e_dataset_blocks_with_styled_lines",
+		"pm_inputs_at_the_shortest_phrase_boundary", "pm_inputs_unicode_folded_phrase", "pm_padded_file_matches_as_short_as_the_shortest_phrase",
+		"rx_prefilter_on_evaluations", "rx_prefilter_off_evaluations", "rx_decided_by_exact_literal_path", "rx_exact_literal_path_matches", "rx_rejected_before_the_regexp",
+		"rx_matches_only_under_unicode_folding", "rx_matches_only_under_unicode_folding_prefilter_on")
 }
 
 type c15Params struct {
@@ -642,11 +763,13 @@ type c15Params struct {
 func init() {
 	fw.Register(&fw.Prop{
 		ID: "C15", Level: "exploration",
-		Rule: "per operator (string operators with literal and %{TX.x} arguments, @eq/@ge/@gt/@le/@lt, @pm/@pmFromFile/@pmf/@pmFromDataset, @ipMatch and its file/data-set forms, @validateByteRange, @validateUrlEncoding, @validateUtf8Encoding, @rx incl. a byte-escape sub-language) an instance is built by the real factory from a generated structured argument (phrase lists 1-40 with shared prefixes and non-ASCII/invalid UTF-8 bytes, CIDR lists v4/v6 with and without prefix length, byte ranges touching 0 and 255, patterns with up to 12 groups) and evaluated on inputs derived from the argument (phrase at start/end, near misses, range edges, %XX and UTF-8 sequences truncated at every offset) against a real transaction state; result and TX.0-9 are compared with naive definitions; about one instance in six is also run through single-rule WAFs (@op / !@op pair, or deny with optional '!'). A case (operator, argument, input) is non-trivial when it was judged and its instance produced both outcomes on its inputs; distinct by hash of (operator, argument, input).",
+		Rule: "per operator (string operators with literal and %{TX.x} arguments, @eq/@ge/@gt/@le/@lt, @pm/@pmFromFile/@pmf/@pmFromDataset, @ipMatch and its file/data-set forms, @validateByteRange, @validateUrlEncoding, @validateUtf8Encoding, @rx incl. a byte-escape sub-language and an anchored / case-insensitive literal sub-population, with the prefilter off and on) an instance is built by the real factory from a generated structured argument (phrase lists 1-40 with shared prefixes, duplicates and non-ASCII/invalid UTF-8 bytes, CIDR lists v4/v6 with and without prefix length, byte ranges touching 0 and 255, patterns with up to 12 groups; data files and SecDataset blocks written in 27 styles: no/some/all lines padded with blanks and tabs, LF/CRLF/mixed, with/without/several final line ends, blank-only and comment lines, entries listed twice or in another case) and evaluated on inputs derived from the argument (phrase at start/end, near misses, the length boundary of the shortest phrase: equal, one byte shorter, one byte longer, one bit off; texts equal to the argument only under Unicode simple folding such as k/U+212A, s/U+017F and letters whose case forms differ in encoded length; range edges, %XX and UTF-8 sequences truncated at every offset) against a real transaction state; result and TX.0-9 are compared with naive definitions; about one instance in six is also run through single-rule WAFs (@op / !@op pair, or deny with optional '!'). A case (operator, argument, input) is non-trivial when it was judged and its instance produced both outcomes on its inputs; distinct by hash of (operator, argument, input).",
 		Assumptions: []string{
 			"trusted base: Go's regexp with the (?sm) prefix rx.go documents as this build's default (for @rx and its submatches), net/netip for address parsing, the hand-written definitions in internal/props/c15_naive.go",
 			"not judged (evaluated for panics only, counted as ambiguous_skipped): numeric operators on text that is not a canonical decimal integer within 64 bits, zoned or IPv4-mapped addresses, @validateNid",
-			"not generated: empty @pm phrases (double blanks), '|' inside @pm phrases (Snort syntax), empty @validateByteRange argument or descending ranges, CIDR list entries the constructor would skip, @rx byte escapes whose decoded form is valid UTF-8",
+			"data files and SecDataset blocks: the entry of a line is the line without its line end and without leading/trailing blanks and tabs; lines that are empty after that are ignored; a line whose first byte is '#' is a comment (indented '#' lines are not generated); in the direct form a data set is the list of strings handed to the factory",
+			"SecRxPreFilter does not change the documented predicate of @rx (C11 states this); the stage counters read through verifapi.RxStage are evidence only",
+			"not generated: data-file lines of 64 KiB or more, empty @pm phrases (double blanks), '|' inside @pm phrases (Snort syntax), empty @validateByteRange argument or descending ranges, CIDR list entries the constructor would skip, @rx byte escapes whose decoded form is valid UTF-8",
 			"the end-to-end part uses only arguments that need no quoting/escaping/trimming and checks through the rule dump that the compiled argument is the intended one (the text layer is C16's subject)",
 		},
 		Required: c15Required(),
